@@ -2,6 +2,7 @@
 # usage: tools/reseed.sh [mutant-id ...]   -- re-run every stored seeded change against its property's check
 # (applies seeded/<id>/patch.diff to /repo, runs ./check, reverts straight afterwards); prints one line each
 cd "$(dirname "$0")/.."
+export VERIF_EVIDENCE_DIR="$PWD/work/evidence-seeded"
 ids=${*:-$(ls seeded)}
 for m in $ids; do
   p=$(echo $m | cut -c1-3)
